@@ -492,6 +492,39 @@ pub fn run(cfg: &Config) -> i32 {
 	});
 	total.merge(rep);
 
+	// random character sequences (always valid UTF-8, so every one goes through the probing source)
+	let n_chars = cfg.budget(200_000, 10_000_000);
+	let rep = parallel(cfg.threads, shards, |i| {
+		let mut rep = Report::new();
+		let mut rng = Rng::new(seed).fork(0xc0e + i as u64);
+		let mut rd = Reader::new();
+		let structural: Vec<char> = "{}[],:\"\\ \n\t0123456789-+.eEtrufalsn/bu".chars().collect();
+		for k in 0..(n_chars / shards as u64).max(1) {
+			let len = match rng.below(8) {
+				0 => rng.below(4),
+				1..=5 => rng.range(1, 30),
+				_ => rng.range(30, 600),
+			};
+			let s: String = (0..len)
+				.map(|_| {
+					if rng.chance(3, 4) {
+						structural[rng.below(structural.len())]
+					} else {
+						gen::gen_char(&mut rng)
+					}
+				})
+				.collect();
+			rep.distinct_bytes(s.as_bytes());
+			feed(&mut rep, "random-characters", s.as_bytes(), &mut rd);
+			if i == 0 && k < 2 {
+				rep.sample(json!({"family": "random-characters", "input": show(s.as_bytes())}));
+			}
+		}
+		rep.count("family:random-characters", (n_chars / shards as u64).max(1));
+		rep
+	});
+	total.merge(rep);
+
 	// corpus: every prefix and single-byte edits
 	let corpus = std::sync::Arc::new(gen::load_corpus(&cfg.repo_dir));
 	if corpus.is_empty() {
